@@ -3681,7 +3681,8 @@ namespace bloch::runtime {
                                      "assignment into this array type is unsupported");
             }
             assign(var->name, arr);
-            return arr;
+            // The value of 'a[i] = v' is the value assigned, as for 'x = v'.
+            return rhs;
         }
         return {};
     }
